@@ -367,7 +367,7 @@ class T:
 
 def render(t, depth=0):
     k = t.kind
-    if depth > 14:
+    if depth > 60:
         return "…"
     r = lambda x: render(x, depth + 1)
     if k == "param":
@@ -855,3 +855,43 @@ def must_pass_through(fn, start, stops, through, unwind=True):
 
 def blocks_with_term(fn, kind):
     return [b for b in range(len(fn.blocks)) if fn.blocks[b]["term"]["k"] == kind]
+
+
+def natural_loops(fn):
+    """[(header_block, set(body blocks))] for every back edge (normal edges only), merged by header."""
+    cfg = fn.cfg()
+    loops = {}
+    n = len(fn.blocks)
+    preds = defaultdict(list)
+    for b in range(n):
+        for s in fn.succs(b):
+            preds[s].append(b)
+    for b in range(n):
+        if not cfg.reachable(b):
+            continue
+        for h in fn.succs(b):
+            if cfg.reachable(h) and h in cfg.dominators(b):
+                body = loops.setdefault(h, {h})
+                st = [b]
+                while st:
+                    x = st.pop()
+                    if x in body:
+                        continue
+                    body.add(x)
+                    st.extend(preds[x])
+    return sorted(loops.items())
+
+
+def loops_containing(fn, bb):
+    return [(h, body) for h, body in natural_loops(fn) if bb in body]
+
+
+def loop_exit_switches(fn, body):
+    out = []
+    for b in sorted(body):
+        t = fn.term(b)
+        if t["k"] == "switch":
+            tg = [a[1] for a in t["arms"]] + [t["otherwise"]]
+            if any(x not in body for x in tg) and any(x in body for x in tg):
+                out.append(b)
+    return out
